@@ -28,7 +28,13 @@ type Deriv struct {
 	A    int    `json:"a,omitempty"`
 	B    int    `json:"b,omitempty"`
 	F    int    `json:"f,omitempty"` // callback selector
+	// PanicAt > 0: the callback panics on its PanicAt-th invocation (error path: the caller recovers
+	// and goes on using the receiver). Never applied to MapAsync, whose callbacks run on other goroutines.
+	PanicAt int `json:"panicat,omitempty"`
 }
+
+// c09Abort is the value the harness's callbacks panic with.
+type c09Abort struct{}
 
 type Mut struct {
 	Who  int     `json:"who"` // raw participant selector
@@ -103,7 +109,11 @@ func GenC09(t *rapid.T) *C09Case {
 	}
 	nd := drawInt(t, 1, 2, "nderiv")
 	for i := 0; i < nd; i++ {
-		c.Derivs = append(c.Derivs, Deriv{Name: names[drawIdx(t, len(names), "deriv")], A: genRaw(t), B: genRaw(t), F: drawInt(t, 0, 3, "f")})
+		d := Deriv{Name: names[drawIdx(t, len(names), "deriv")], A: genRaw(t), B: genRaw(t), F: drawInt(t, 0, 3, "f")}
+		if oneIn(t, 5, "cbpanic") {
+			d.PanicAt = drawInt(t, 1, 4, "panicat")
+		}
+		c.Derivs = append(c.Derivs, d)
 	}
 	nm := drawInt(t, 1, 8, "nmut")
 	for i := 0; i < nm; i++ {
@@ -305,8 +315,14 @@ func scalarText(x any) string {
 // deriveList applies one derivation to receiver r with argument a.
 func deriveList(d Deriv, r, a at.List) any {
 	n := r.Count()
-	calls := 0
+	calls, ticks := 0, 0
 	next := func() int { calls++; return calls - 1 }
+	tick := func() {
+		ticks++
+		if d.PanicAt > 0 && ticks == d.PanicAt {
+			panic(c09Abort{})
+		}
+	}
 	p := preds[d.F%4]
 	switch d.Name {
 	case "Concat":
@@ -321,33 +337,33 @@ func deriveList(d Deriv, r, a at.List) any {
 		}
 		return r.SubList(s, e)
 	case "Filter":
-		return r.Filter(func(x any) bool { return p(next(), x) })
+		return r.Filter(func(x any) bool { tick(); return p(next(), x) })
 	case "FilterInts":
-		return r.FilterInts(func(x int) bool { return p(next(), x) })
+		return r.FilterInts(func(x int) bool { tick(); return p(next(), x) })
 	case "FilterStrings":
-		return r.FilterStrings(func(x string) bool { return p(next(), x) })
+		return r.FilterStrings(func(x string) bool { tick(); return p(next(), x) })
 	case "FilterFloats":
-		return r.FilterFloats(func(x float64) bool { return p(next(), x) })
+		return r.FilterFloats(func(x float64) bool { tick(); return p(next(), x) })
 	case "FilterObjects":
-		return r.FilterObjects(func(x at.Object) bool { return p(next(), x) })
+		return r.FilterObjects(func(x at.Object) bool { tick(); return p(next(), x) })
 	case "FilterLists":
-		return r.FilterLists(func(x at.List) bool { return p(next(), x) })
+		return r.FilterLists(func(x at.List) bool { tick(); return p(next(), x) })
 	case "Map":
-		return r.Map(func(i int, x any) any { return tag(d.F, x) })
+		return r.Map(func(i int, x any) any { tick(); return tag(d.F, x) })
 	case "MapValues":
-		return r.MapValues(func(x any) any { return tag(d.F, x) })
+		return r.MapValues(func(x any) any { tick(); return tag(d.F, x) })
 	case "MapInts":
-		return r.MapInts(func(x int) any { return tag(d.F, x) })
+		return r.MapInts(func(x int) any { tick(); return tag(d.F, x) })
 	case "MapStrings":
-		return r.MapStrings(func(x string) any { return tag(d.F, x) })
+		return r.MapStrings(func(x string) any { tick(); return tag(d.F, x) })
 	case "MapFloats":
-		return r.MapFloats(func(x float64) any { return tag(d.F, x) })
+		return r.MapFloats(func(x float64) any { tick(); return tag(d.F, x) })
 	case "MapBools":
-		return r.MapBools(func(x bool) any { return tag(d.F, x) })
+		return r.MapBools(func(x bool) any { tick(); return tag(d.F, x) })
 	case "MapObjects":
-		return r.MapObjects(func(x at.Object) any { return tag(d.F, x) })
+		return r.MapObjects(func(x at.Object) any { tick(); return tag(d.F, x) })
 	case "MapLists":
-		return r.MapLists(func(x at.List) any { return tag(d.F, x) })
+		return r.MapLists(func(x at.List) any { tick(); return tag(d.F, x) })
 	case "MapAsync":
 		return r.MapAsync(func(i int, x any) any { return tag(d.F, x) })
 	case "Slice":
@@ -365,13 +381,13 @@ func deriveList(d Deriv, r, a at.List) any {
 	case "FloatSlice":
 		return r.FloatSlice()
 	case "Reduce":
-		return r.Reduce(0, func(acc any, x any) any { return acc.(int) + 1 })
+		return r.Reduce(0, func(acc any, x any) any { tick(); return acc.(int) + 1 })
 	case "ReduceInts":
-		return r.ReduceInts(0, func(acc, x int) int { return acc*31 + x })
+		return r.ReduceInts(0, func(acc, x int) int { tick(); return acc*31 + x })
 	case "ReduceStrings":
-		return r.ReduceStrings("", func(acc, x string) string { return acc + x })
+		return r.ReduceStrings("", func(acc, x string) string { tick(); return acc + x })
 	case "ReduceFloats":
-		return r.ReduceFloats(0, func(acc, x float64) float64 { return acc + x })
+		return r.ReduceFloats(0, func(acc, x float64) float64 { tick(); return acc + x })
 	case "String":
 		return r.String()
 	case "FormatString":
@@ -393,6 +409,13 @@ func deriveList(d Deriv, r, a at.List) any {
 }
 
 func deriveObject(d Deriv, r, a at.Object) any {
+	ticks := 0
+	tick := func() {
+		ticks++
+		if d.PanicAt > 0 && ticks == d.PanicAt {
+			panic(c09Abort{})
+		}
+	}
 	switch d.Name {
 	case "Merge":
 		return r.Merge(a)
@@ -421,21 +444,21 @@ func deriveObject(d Deriv, r, a at.Object) any {
 	case "Dict":
 		return r.Dict()
 	case "Map":
-		return r.Map(func(k string, x any) any { return tag(d.F, x) })
+		return r.Map(func(k string, x any) any { tick(); return tag(d.F, x) })
 	case "MapValues":
-		return r.MapValues(func(x any) any { return tag(d.F, x) })
+		return r.MapValues(func(x any) any { tick(); return tag(d.F, x) })
 	case "MapInts":
-		return r.MapInts(func(x int) any { return tag(d.F, x) })
+		return r.MapInts(func(x int) any { tick(); return tag(d.F, x) })
 	case "MapStrings":
-		return r.MapStrings(func(x string) any { return tag(d.F, x) })
+		return r.MapStrings(func(x string) any { tick(); return tag(d.F, x) })
 	case "MapFloats":
-		return r.MapFloats(func(x float64) any { return tag(d.F, x) })
+		return r.MapFloats(func(x float64) any { tick(); return tag(d.F, x) })
 	case "MapBools":
-		return r.MapBools(func(x bool) any { return tag(d.F, x) })
+		return r.MapBools(func(x bool) any { tick(); return tag(d.F, x) })
 	case "MapObjects":
-		return r.MapObjects(func(x at.Object) any { return tag(d.F, x) })
+		return r.MapObjects(func(x at.Object) any { tick(); return tag(d.F, x) })
 	case "MapLists":
-		return r.MapLists(func(x at.List) any { return tag(d.F, x) })
+		return r.MapLists(func(x at.List) any { tick(); return tag(d.F, x) })
 	case "MapAsync":
 		return r.MapAsync(func(k string, x any) any { return tag(d.F, x) })
 	case "String":
@@ -596,6 +619,7 @@ func CheckC09(c *C09Case, st *Stats) error {
 	grown := !c.ObjectMode && len(c.Recv.Adds) > 0
 	emptyArg := !c.ObjectMode && a.(at.List).Count() == 0
 	derivNames := ""
+	abortedAny := false
 	for i, d := range c.Derivs {
 		beforeR, beforeA := slots(r), slots(a)
 		var res any
@@ -606,6 +630,18 @@ func CheckC09(c *C09Case, st *Stats) error {
 				res = deriveList(d, r.(at.List), a.(at.List))
 			}
 		})
+		if _, aborted := p.(c09Abort); panicked && aborted {
+			// the callback gave up part-way and the caller recovered: no result, inputs untouched and still usable
+			if !slotsEqual(beforeR, slots(r)) {
+				return errf("%s aborted by a panicking callback changed its receiver: %s -> %s", d.Name, showSlots(beforeR), showSlots(slots(r)))
+			}
+			if !slotsEqual(beforeA, slots(a)) {
+				return errf("%s aborted by a panicking callback changed its argument: %s -> %s", d.Name, showSlots(beforeA), showSlots(slots(a)))
+			}
+			st.Count("deriv.aborted_by_callback_panic")
+			abortedAny = true
+			continue
+		}
 		if panicked {
 			return errf("%s panicked: %v", d.Name, p)
 		}
@@ -656,6 +692,9 @@ func CheckC09(c *C09Case, st *Stats) error {
 		var applied bool
 		p, panicked := catch(func() { applied = applyMut(who, m) })
 		if panicked {
+			if abortedAny {
+				return errf("after a derivation that was aborted by a panicking callback (recovered by the caller), %s on %s panicked: %v", m.Name, who.name, p)
+			}
 			return errf("mutation %s on %s panicked: %v", m.Name, who.name, p)
 		}
 		if !applied {
@@ -674,7 +713,7 @@ func CheckC09(c *C09Case, st *Stats) error {
 			}
 		}
 	}
-	if mutatedRecvOrResult && (spare || grown || emptyArg || c.ObjectMode) {
+	if mutatedRecvOrResult && (spare || grown || emptyArg || c.ObjectMode || abortedAny) {
 		st.MarkNonTrivial()
 	}
 	// After this history, every derivation must give what it gives on a freshly built container with
@@ -686,6 +725,9 @@ func CheckC09(c *C09Case, st *Stats) error {
 	}
 	twinR, twinA := Build(rs), Build(as)
 	for _, d := range c.Derivs {
+		if d.PanicAt > 0 {
+			continue // error path, exercised above
+		}
 		if d.Name == "IndexOf" || d.Name == "Contains" {
 			continue // identity-based: the twin holds distinct copies where the receiver may hold one instance twice
 		}
@@ -723,6 +765,6 @@ func c09fp(name string, x any) string {
 
 func init() {
 	Register("C09",
-		"receiver and argument are built through a drawn history (constructor NewList/NewListFrom/NewListOf/Add-by-Add, 0-129 further Adds crossing capacity boundaries, Inserts, then 0-3 Pops and 0-2 Deletes so that length/capacity relations vary; the argument may be empty), then 1-2 derivations from the same receiver drawn from the full table (Concat incl. self, SubList, 6 Filter*, 9 Map* incl. MapAsync, Slice and the 6 typed slices, 4 Reduce*, String, FormatString, Equals, Contains, IndexOf; for objects Merge incl. self, Pluck, Keys, Values, Dict, 9 Map*, String, FormatString, Equals, Contains), then 1-8 top-level mutations (Add, Insert, Replace, Delete, Pop, Clear, Sort in domain, Reverse, Set, Unset; element assignment / append within capacity / delete for Go slices and maps) on any participant. Oracle: top-level slot snapshots (scalar value or identity of the nested container per slot) of receiver and argument are unchanged by the derivation, and after every mutation every other participant's snapshot is unchanged. Non-trivial = at least one mutation of the receiver or a result after a derivation from a receiver with Pop/Delete or growth history, or with an empty argument, or in object mode. Distinct = distinct FNV-64a hash of the case JSON.",
+		"receiver and argument are built through a drawn history (constructor NewList/NewListFrom/NewListOf/Add-by-Add, 0-129 further Adds crossing capacity boundaries, Inserts, then 0-3 Pops and 0-2 Deletes so that length/capacity relations vary; the argument may be empty), then 1-2 derivations from the same receiver drawn from the full table (Concat incl. self, SubList, 6 Filter*, 9 Map* incl. MapAsync, Slice and the 6 typed slices, 4 Reduce*, String, FormatString, Equals, Contains, IndexOf; for objects Merge incl. self, Pluck, Keys, Values, Dict, 9 Map*, String, FormatString, Equals, Contains), then 1-8 top-level mutations (Add, Insert, Replace, Delete, Pop, Clear, Sort in domain, Reverse, Set, Unset; element assignment / append within capacity / delete for Go slices and maps) on any participant; one derivation in five has a callback that panics on its 1st-4th invocation (the harness recovers, as a caller would), after which inputs must be unchanged and every later mutation must still work. Oracle: top-level slot snapshots (scalar value or identity of the nested container per slot) of receiver and argument are unchanged by the derivation, and after every mutation every other participant's snapshot is unchanged. Non-trivial = at least one mutation of the receiver or a result after a derivation from a receiver with Pop/Delete or growth history, or with an empty argument, or in object mode. Distinct = distinct FNV-64a hash of the case JSON.",
 		GenC09, CheckC09)
 }
